@@ -99,6 +99,9 @@ class SkelExtractor:
         self.cur = None
         self.visited = set()
         self.inlined = False
+        self.fin = []          # enclosing `finally` bodies (innermost last); 'release' = exit of `with <mutex>:`
+        self.in_handler = 0
+        self.path = 'normal'   # which copy of a finally body is being emitted: normal exit / exit through a handler
 
     def func(self, f):
         """extract the body of a method (the entry point, or a helper method it delegates to)"""
@@ -176,25 +179,25 @@ class SkelExtractor:
         if isinstance(s, ast.Assign):
             return self.assign(s)
         if isinstance(s, ast.Try):
-            self.block(s.body)
-            self.block(s.orelse)
-            self.block(s.finalbody)       # exception handlers are not modelled
-            return
+            return self.try_(s.body, s.orelse, s.handlers, s.finalbody, s.lineno)
         if isinstance(s, ast.With):
             locks = [i for i in s.items if '_mtx_build_interface_document' in seg(i.context_expr)]
             if locks:
+                # `with lock:` = acquire; try: body; finally: release
                 self.emit('acquire', marker=('lock', 'acquire'))
-                self.block(s.body)
-                self.emit('release', marker=('lock', 'release'))
+                self.try_(s.body, [], [], 'release', s.lineno)
             else:
                 self.block(s.body)
             return
+        if isinstance(s, ast.Raise):
+            self.finals()
+            return self.emit('reraise')
         if isinstance(s, ast.Expr) and isinstance(s.value, ast.Call) and isinstance(s.value.func, ast.Attribute):
             a = s.value.func.attr
             if a == 'acquire' and '_mtx_build_interface_document' in seg(s.value.func.value):
                 return self.emit('acquire', marker=('lock', 'acquire'))
             if a == 'release' and '_mtx_build_interface_document' in seg(s.value.func.value):
-                return self.emit('release', marker=('lock', 'release'))
+                return self.emit('release', marker=('lock', 'release', self.path))
             if a == 'build_interface_document':
                 self.emit('buildBegin', marker=('call', 'build_interface_document'))
                 self.emit('buildPorts', marker=('call', '_get_or_create_'))
@@ -205,16 +208,66 @@ class SkelExtractor:
             if isinstance(v, (ast.List, ast.Tuple)) and len(v.elts) == 1:
                 v = v.elts[0]
             c = self.cls(v) if v is not None else None
-            if c and c[0] == 'reg':
-                return self.emit('respond', c[1])
             if c and c[0] == 'cache':
                 self.emit('loadCache', 't', marker=('line', self.cur, s.lineno))
-                return self.emit('respond', 't')
+                c = ('reg', 't')
+            self.finals()              # every enclosing `finally` runs before the function returns
+            if c and c[0] == 'reg':
+                return self.emit('respond', c[1])
+            if self.in_handler:
+                return self.emit('respondErr')
             self.notes.append('return of a non-document at line %d' % s.lineno)
             return self.emit('opaque')
         if self.touches(s):
             self.notes.append('unmodelled statement touching shared names at line %d: %s' % (s.lineno, seg(s)[:80]))
             self.emit('opaque')
+
+    def final(self, fb):
+        if fb == 'release':
+            self.emit('release', marker=('lock', 'release', self.path))
+        else:
+            self.block(fb)
+
+    def finals(self):
+        """the enclosing finally bodies, innermost first (executed by a return / raise)"""
+        saved = self.fin
+        for k in range(len(saved) - 1, -1, -1):
+            self.fin = saved[:k]
+            self.final(saved[k])
+        self.fin = saved
+
+    def try_(self, body, orelse, handlers, finalbody, lineno):
+        """try / except / else / finally.  The finally body is emitted once per exit: after the normal exit and
+        after the exit through the (one) handler; an exception without handler re-raises after it."""
+        h, end = self.new_label(), self.new_label()
+        self.emit('tryEnter', h)
+        self.fin.append(finalbody)
+        self.block(body)
+        self.emit('tryLeave')
+        self.block(orelse)
+        self.fin.pop()
+        self.final(finalbody)
+        self.emit('jmp', end)
+        self.place(h)
+        old = self.path
+        self.path = 'handler'
+        if handlers:
+            if len(handlers) > 1:
+                self.notes.append('several except clauses at line %d: only the first is modelled' % lineno)
+                self.emit('opaque')
+            hb = handlers[0].body
+            self.fin.append(finalbody)
+            self.in_handler += 1
+            self.block(hb)
+            self.in_handler -= 1
+            self.fin.pop()
+            if not (hb and isinstance(hb[-1], (ast.Return, ast.Raise))):
+                self.final(finalbody)
+        else:
+            self.final(finalbody)
+            self.emit('reraise')
+        self.path = old
+        self.place(end)
 
     def if_(self, s):
         t = s.test
@@ -622,6 +675,8 @@ class Run:
 
     def _lock_pc(self, tid, what):
         ts = self.tstate[tid]
+        if what == 'release' and ts.get('exc') and self.env.w_lock_pcs['release-handler']:
+            return self.env.w_lock_pcs['release-handler'][0]
         pcs = self.env.w_lock_pcs[what]
         key = 'acq' if what == 'acquire' else 'rel'
         k = ts[key]
@@ -719,6 +774,8 @@ class Run:
             def local(frame, event, arg):
                 if event == 'line' or event == 'return':
                     run.on_event(tid, frame, event, info)
+                elif event == 'exception' and info['kind'] == 'wsdl':
+                    run.tstate[tid]['exc'] = True       # the handler is left through its except clause
                 return local
             return local
 
@@ -1054,7 +1111,7 @@ class Env:
         self.codes[val['code']] = {'kind': 'validator', 'stmts': val['stmts'], 'name': '__validate_lxml'}
         # skeleton markers
         self.w_line_pc, self.w_calleeline_pc, self.w_return_pc = {}, {}, {}
-        self.w_lock_pcs = {'acquire': [], 'release': []}
+        self.w_lock_pcs = {'acquire': [], 'release': [], 'release-handler': []}
         b = [None, None, None]
         self.unmarked = []
         for pc, (ins, mk) in enumerate(zip(wsdl['instrs'], wsdl['markers'])):
@@ -1071,7 +1128,7 @@ class Env:
             elif mk[0] == 'return':
                 self.w_return_pc[(mk[1], self.w_codes[mk[1]].get(mk[2], mk[2]))] = pc
             elif mk[0] == 'lock':
-                self.w_lock_pcs[mk[1]].append(pc)
+                self.w_lock_pcs[mk[1] if len(mk) < 3 or mk[2] == 'normal' else 'release-handler'].append(pc)
             elif mk == ('call', 'build_interface_document'):
                 b[0] = pc
             elif mk == ('call', '_get_or_create_'):
@@ -1198,6 +1255,35 @@ def instrument_locks(run, w):
     return names
 
 
+def inject_failures(run, env, w, inject):
+    """make the first k executions of the WSDL build raise a transient error.
+    inject = ['schema', k]   : build_schema_nodes raises (nothing built yet)            = model `early`
+             ['listener', k] : a 'wsdl_document_built' listener raises (elements exist) = model `late`"""
+    if not inject:
+        return None
+    kind, k = inject
+    st = {'left': k, 'on': True}
+    w11 = w.app.interface.docs.wsdl11
+
+    def fire():
+        if st['on'] and st['left'] > 0:
+            st['left'] -= 1
+            run.log(run.cur, 'inject', kind)
+            if kind == 'listener' and env.w_build_pc is not None:
+                run.log(run.cur, 'w', env.w_build_pc[2])      # the model's buildPublish step is where a late failure raises
+            raise OSError('C12: injected transient failure (%s)' % kind)
+    if kind == 'schema':
+        orig = w11.build_schema_nodes
+
+        def build_schema_nodes(*a, **kw):
+            fire()
+            return orig(*a, **kw)
+        w11.build_schema_nodes = build_schema_nodes
+    else:
+        w11.event_manager.add_listener('wsdl_document_built', lambda *a: fire())
+    return st
+
+
 class Harness:
     def __init__(self, ctx, facts):
         self.ctx, self.facts = ctx, facts
@@ -1234,19 +1320,22 @@ class Harness:
         return self._oracle[k]
 
     # ---- one scheduled run
-    def run_case(self, fx, reqs, policy, mode='all'):
+    def run_case(self, fx, reqs, policy, mode='all', inject=None):
         self.runs += 1
         env = self.env
         w = make_instance(fx)
         run = Run(env, len(reqs), policy, mode)
         env.new_run(w)
         instrument_locks(run, w)
+        inj = inject_failures(run, env, w, inject)
         try:
             res = run.go([(lambda r=r: call(w, r)) for r in reqs])
         finally:
             reset_global_caches()
         run.trace[:] = [env.resolve(e) for e in run.trace]
-        out = {'fx': fx, 'reqs': [r['name'] for r in reqs], 'responses': res, 'trace': run.trace,
+        if inj is not None:
+            inj['on'] = False
+        out = {'inject': inject, 'fx': fx, 'reqs': [r['name'] for r in reqs], 'responses': res, 'trace': run.trace,
                'failure': run.failure, 'errors': [None if e is None else '%s: %s' % (type(e).__name__, e) for e in run.err],
                'npoints': run.npoints, 'w': w, 'decisions': run.decisions, 'switches': run.switches, 'mode': mode}
         out['builds'] = sum(1 for e in run.trace if (e[1] == 'build') or (e[1] == 'w' and e[2] in env.begin_pcs))
@@ -1257,9 +1346,14 @@ class Harness:
         """returns a list of (finding id, what, detail)"""
         bad = []
         reqs = [self.universe[(case['fx'], n)] for n in case['reqs']]
+        raised = [e[0] for e in case['trace'] if e[1] == 'inject']
         if case['failure']:
+            live = [i for i, r in enumerate(case['responses']) if r is None]
             bad.append(('deadlock' if case['failure'] == 'deadlock' else 'hang',
-                        'threads %s under schedule' % case['failure'], {}))
+                        'threads %s never get an answer: %s (every live thread is blocked)%s' % (
+                            [reqs[i]['name'] for i in live], case['failure'],
+                            '; the build of thread %s raised an injected transient error' % raised if raised else ''),
+                        {'unanswered_threads': live, 'raised_in': raised}))
             return bad
         for i, r in enumerate(reqs):
             exp = self.oracle(r)
@@ -1267,12 +1361,14 @@ class Harness:
             if case['errors'][i]:
                 bad.append(('crash:%s' % r['kind'], 'request %s raised %s out of the WSGI callable' % (r['name'], case['errors'][i]),
                             {'thread': i}))
+            elif r['kind'] == 'wsdl' and i in raised and got is not None and str(got[0]).startswith('500'):
+                pass        # its own build raised: the except clause answers 500
             elif got != exp:
                 fid = 'wsdl-differs' if r['kind'] == 'wsdl' else 'response-differs:' + self.classify_diff(r, exp, got)
                 bad.append((fid, 'thread %d (%s) received a response that differs from the one it receives alone' % (i, r['name']),
                             {'thread': i, 'expected': show_resp(exp), 'got': show_resp(got)}))
-        if case['builds'] > 1:
-            bad.append(('wsdl-built-%d-times' % min(case['builds'], 2), 'build_interface_document ran %d times' % case['builds'], {}))
+        if case['builds'] - len(raised) > 1:
+            bad.append(('wsdl-built-2-times', 'build_interface_document ran %d times (%d of them raised)' % (case['builds'], len(raised)), {}))
         if not bad:
             # the instance must still answer every request of the run correctly afterwards
             w = case['w']
@@ -1344,6 +1440,8 @@ class Harness:
                         obs[tid].append(['val', ckind, kid, val if hit else 'full'])
         sched = [2 * n] * len(progs[2 * n]) + sched
         q = {'op': 'sys.run', 'sched': sched, 'reqs': []}
+        if case.get('inject'):
+            q['fails'] = [{'schema': 'early', 'listener': 'late'}[case['inject'][0]]] * case['inject'][1]
         for i, r in enumerate(reqs):
             if r['kind'] == 'wsdl':
                 q['reqs'].append({'kind': 'wsdl'})
@@ -1601,11 +1699,12 @@ def decisions_policy(decisions):
 LEAN_INSTR = {'loadCache': '.loadCache .%s', 'loadPub': '.loadPub .%s', 'storeCache': '.storeCache .%s',
               'mov': '.mov .%s .%s', 'jmpIfSome': '.jmpIfSome .%s %s', 'jmpIfNone': '.jmpIfNone .%s %s', 'jmp': '.jmp %s',
               'acquire': '.acquire', 'release': '.release', 'buildBegin': '.buildBegin', 'buildPorts': '.buildPorts',
-              'buildPublish': '.buildPublish', 'respond': '.respond .%s', 'opaque': '.opaque'}
+              'buildPublish': '.buildPublish', 'respond': '.respond .%s', 'opaque': '.opaque', 'tryEnter': '.tryEnter %s',
+              'tryLeave': '.tryLeave', 'respondErr': '.respondErr', 'reraise': '.reraise'}
 
-EXPECTED = ['loadCache t', 'jmpIfSome t 5', 'loadPub t', 'jmpIfNone t 5', 'storeCache t', 'loadCache w', 'jmpIfSome w 17',
-            'acquire', 'loadCache w', 'jmpIfSome w 16', 'buildBegin', 'buildPorts', 'buildPublish', 'loadPub t', 'mov w t',
-            'storeCache t', 'release', 'respond w']
+EXPECTED = ['loadCache t', 'jmpIfSome t 5', 'loadPub t', 'jmpIfNone t 5', 'storeCache t', 'loadCache w', 'jmpIfSome w 22',
+            'tryEnter 20', 'acquire', 'loadCache w', 'jmpIfSome w 17', 'buildBegin', 'buildPorts', 'buildPublish', 'loadPub t',
+            'mov w t', 'storeCache t', 'tryLeave', 'release', 'jmp 22', 'release', 'respondErr', 'respond w']
 
 
 def lean_instr(s):
@@ -1709,15 +1808,15 @@ class Executor:
         self.H, self.sink, self.n = H, sink, 0
         H.report = lambda fid, what, obj: sink.emit(t='finding', fid=fid, what=what, obj=obj)
 
-    def execute(self, fx, names, spec, mode, desc):
+    def execute(self, fx, names, spec, mode, desc, inject=None):
         H = self.H
         U = H.universe
-        self.sink.emit(t='start', fx=fx, reqs=names, spec=spec, mode=mode, sched=desc)
+        self.sink.emit(t='start', fx=fx, reqs=names, spec=spec, mode=mode, sched=desc, inject=inject)
         reqs = [U[(fx, n)] for n in names]
         kinds = ['wsdl' if r['kind'] == 'wsdl' else 'schema-invalid' if H.is_invalid(r) else
                  'ok' if H.oracle(r)[0].startswith('200') else 'fault' for r in reqs]
         try:
-            case = in_child(self._run, fx, names, spec, mode, desc)     # every run in a pristine process
+            case = in_child(self._run, fx, names, spec, mode, desc, inject)     # every run in a pristine process
         except ChildDied as e:
             st = e.args[0]
             sig = st & 0x7f
@@ -1726,14 +1825,14 @@ class Executor:
                                   % ('signal %d' % sig if sig else 'status %d' % st, len(names), names, desc), {'spec': spec})],
                     'q': None, 'real': None}
         self.n += 1
-        self.sink.emit(t='case', fx=fx, reqs=names, mode=mode, sched=desc, decisions=case['decisions'], spec=spec,
+        self.sink.emit(t='case', fx=fx, reqs=names, mode=mode, sched=desc, decisions=case['decisions'], spec=spec, inject=inject,
                        switches=case['switches'], kinds=kinds, findings=case['findings'], q=case['q'], real=case['real'])
         return case
 
-    def _run(self, fx, names, spec, mode, desc):
+    def _run(self, fx, names, spec, mode, desc, inject=None):
         H = self.H
         reqs = [H.universe[(fx, n)] for n in names]
-        case = H.run_case(fx, reqs, make_policy(spec), mode)
+        case = H.run_case(fx, reqs, make_policy(spec), mode, inject)
         findings = H.check_property(case, desc)
         q = real = None
         if not case['failure']:
@@ -1746,20 +1845,20 @@ class Executor:
 
 # ---------------------------------------------------------------------------------------- phases (run in worker processes)
 
-def phase_wsdl(E, rng, T, fx_list=('soap', 'soft')):
+def phase_wsdl(E, rng, T, firsts=(0, 1), fx_list=('soap', 'soft')):
     """the WSDL handler alone: schedules over the shared accesses of the extracted skeleton"""
     nsteps = sum(1 for i in E.H.facts['skeleton'] if i.split()[0] in SHARED_OPS) + 1
     wn = ['wsdl', 'wsdl2']
     for fx in fx_list:
         # two requesters: every schedule with at most two pre-emptions
-        for first in (0, 1):
+        for first in firsts:
             other = 1 - first
             for a in range(0, nsteps):
                 bs = range(0, nsteps) if fx == 'soap' or T > 1 else (0, 1, 2, 3, nsteps - 1)
                 for b in bs:
                     E.execute(fx, wn, ['legs', [[first, a], [other, b], [first, None], [other, None]]], 'wsdl',
                               'wsdl-2thr-2preempt')
-    for nthr in (3, 4):
+    for nthr in ((3, 4) if 1 in firsts else ()):
         names = ['wsdl', 'wsdl2', 'wsdl', 'wsdl2'][:nthr]
         for _ in range(60 * T):
             order = list(range(nthr))
@@ -1770,6 +1869,33 @@ def phase_wsdl(E, rng, T, fx_list=('soap', 'soft')):
         for _ in range(30 * T):
             E.execute('soap', names, ['seq', [rng.randrange(nthr) for _ in range(rng.randrange(5, 60))]], 'wsdl',
                       'wsdl-%dthr-random' % nthr)
+
+
+def phase_wsdl_failures(E, rng, T):
+    """fault injection: the first k lazy builds raise (before anything is built / after the elements exist) while
+    other requesters race or wait for the lock; every single pre-emption, sampled double ones, 3 threads, + an rpc"""
+    nsteps = sum(1 for i in E.H.facts['skeleton'] if i.split()[0] in SHARED_OPS) + 1
+    wn = ['wsdl', 'wsdl2']
+    for fx in (('soap', 'soft') if T > 1 else ('soap',)):
+        for kind in ('schema', 'listener'):
+            for first in (0, 1):
+                other = 1 - first
+                for a in range(0, nsteps):
+                    E.execute(fx, wn, ['legs', [[first, a], [other, None], [first, None]]], 'wsdl', 'wsdl-fail-1preempt', [kind, 1])
+            for _ in range(25 * T):
+                a, b = rng.randrange(nsteps), rng.randrange(nsteps)
+                E.execute(fx, wn, ['legs', [[0, a], [1, b], [0, None], [1, None]]], 'wsdl', 'wsdl-fail-2preempt',
+                          [kind, rng.choice([1, 1, 2])])
+            for _ in range(12 * T):
+                names = ['wsdl', 'wsdl2', 'wsdl']
+                E.execute(fx, names, ['seq', [rng.randrange(3) for _ in range(rng.randrange(5, 50))]], 'wsdl', 'wsdl-fail-3thr',
+                          [kind, rng.choice([1, 2, 3])])
+            for _ in range(6 * T):
+                names = ['wsdl', rng.choice(['add(1,2)', 'echo(n,3)', 'add(x,2)']), 'wsdl2']
+                sched = []
+                while len(sched) < 300:
+                    sched += [rng.randrange(3)] * rng.choice([1, 2, 3, 5, 8, 20])
+                E.execute(fx, names, ['seq', sched], 'all', 'mixed-fail-random', [kind, 1])
 
 
 def phase_witness(E, rng, T):
@@ -1798,7 +1924,7 @@ def phase_publish_sweep(E, rng, T, fx):
     for a in names_all:
         seqcase = E.execute(fx, [a], ['legs', [[0, None]]], 'all', 'sequential')
         npub = seqcase['npub']
-        partners = [a] + [rng.choice(names_all) for _ in range(T)]
+        partners = [a] + [rng.choice(names_all) for _ in range(T - 1)]
         for b in partners:
             for j in range(1, npub + 1):
                 E.execute(fx, [a, b], ['after-any-publish', j], 'all', 'witness-every-publish')
@@ -1809,12 +1935,13 @@ def phase_mixed(E, rng, T, fx):
     U = E.H.universe
     names_all = [r['name'] for r in U.values() if r['fx'] == fx]
     tuples = []
-    for n in names_all:                     # every request next to itself and to a random partner
-        tuples.append([n, n])
+    for n in names_all:                     # every request next to itself (thorough) and to a random partner
+        if T > 1:
+            tuples.append([n, n])
         tuples.append([n, rng.choice(names_all)])
-    for _ in range(8 * T):
+    for _ in range(6 * T):
         tuples.append([rng.choice(names_all) for _ in range(3)])
-    for _ in range(5 * T):
+    for _ in range(4 * T):
         tuples.append([rng.choice(names_all) for _ in range(4)])
     rng.shuffle(tuples)
     deadline = time.time() + (900 if T > 1 else 75)      # safety net only; the counts above are the budget
@@ -1935,6 +2062,8 @@ def run(ctx):
     bad_facts = []
     if f['skeleton'] != EXPECTED:
         bad_facts.append('wsdlSkeleton')
+    if not f['builderResets']:
+        bad_facts.append('builderResets=false')
     for k, g in GOOD_ORDER.items():
         if f['order'].get(k) != g:
             bad_facts.append('%sPublish=%s' % (k, f['order'].get(k)))
@@ -1965,10 +2094,11 @@ def run(ctx):
     # under some schedule must not take the check down)
     scratch = os.path.join(core.VERIF, '.scratch', 'c12-%d' % os.getpid())
     os.makedirs(scratch, exist_ok=True)
-    phases = [('wsdl', phase_wsdl, ()), ('witness', phase_witness, ()), ('mixed-soap', phase_mixed, ('soap',)),
+    phases = [('wsdl-a', phase_wsdl, ((0,),)), ('wsdl-b', phase_wsdl, ((1,),)), ('wsdl-fail', phase_wsdl_failures, ()), ('witness', phase_witness, ()), ('mixed-soap', phase_mixed, ('soap',)),
               ('mixed-soft', phase_mixed, ('soft',)), ('mixed-http', phase_mixed, ('http',)), ('stress', phase_stress, ()),
-              ('publish-soap', phase_publish_sweep, ('soap',)), ('publish-soft', phase_publish_sweep, ('soft',)),
-              ('publish-http', phase_publish_sweep, ('http',))]
+              ('publish-soap', phase_publish_sweep, ('soap',)), ('publish-http', phase_publish_sweep, ('http',))]
+    if ctx.thorough:
+        phases.append(('publish-soft', phase_publish_sweep, ('soft',)))
     mp = multiprocessing.get_context('fork')
     procs = []
     t0 = time.time()
@@ -2006,7 +2136,9 @@ def run(ctx):
             elif t == 'case':
                 last_start = None
                 n_here += 1
-                d = {'fx': r['fx'], 'reqs': r['reqs'], 'mode': r['mode'], 'decisions': r['decisions']}
+                d = {'fx': r['fx'], 'reqs': r['reqs'], 'mode': r['mode'], 'decisions': r['decisions'], 'inject': r.get('inject')}
+                if r.get('inject'):
+                    ctx.hit('inject:%s x%d' % tuple(r['inject']))
                 ctx.case({'fx': r['fx'], 'reqs': r['reqs'], 'mode': r['mode'], 'round': r.get('round'),
                           'decisions': hashlib.sha1(repr(r['decisions']).encode()).hexdigest()[:12]},
                          nontrivial=r['switches'] > 0)
@@ -2043,7 +2175,24 @@ def run(ctx):
 
     # ---------------------------------------------------------------- T2: every run replayed through the Lean model
     t0 = time.time()
-    answers = ctx.model(queries)
+    nchunk = max(1, min(6, len(queries) // 300))
+    chunks = [queries[k::nchunk] for k in range(nchunk)]
+    outs = [None] * nchunk
+    errs = []
+
+    def ask(k):
+        try:
+            outs[k] = ctx.model(chunks[k])
+        except BaseException as e:      # noqa
+            errs.append(e)
+    ths = [threading.Thread(target=ask, args=(k,)) for k in range(nchunk)]
+    [t.start() for t in ths]
+    [t.join() for t in ths]
+    if errs:
+        raise errs[0]
+    answers = [None] * len(queries)
+    for k in range(nchunk):
+        answers[k::nchunk] = outs[k]
     ndis = 0
     for q, (real, d), ans in zip(queries, reals, answers):
         if 'driver_error' in ans:
@@ -2089,8 +2238,12 @@ def replay(ctx, obj):
     for r in reqs:
         H.oracle(r)         # in a pristine child process, before this process serves anything
     spec = ['decisions', obj['decisions']] if obj.get('decisions') else obj['spec']
-    case = H.run_case(fx, reqs, make_policy(spec), obj.get('mode', 'all'))
-    print('fixture %s, requests %s, %d scheduler decisions, %d context switches' % (fx, names, len(case['decisions']), case['switches']))
+    case = H.run_case(fx, reqs, make_policy(spec), obj.get('mode', 'all'), obj.get('inject'))
+    print('fixture %s, requests %s, %d scheduler decisions, %d context switches%s' % (
+        fx, names, len(case['decisions']), case['switches'],
+        ', injected: the first %d WSDL build(s) raise in %s' % (obj['inject'][1], obj['inject'][0]) if obj.get('inject') else ''))
+    if case['failure']:
+        print(' RUN DID NOT FINISH: %s; unanswered threads: %s' % (case['failure'], [i for i, r in enumerate(case['responses']) if r is None]))
     for i, r in enumerate(reqs):
         got, exp = case['responses'][i], H.oracle(r)
         print(' thread %d %-12s status=%s bytes=%s  %s' % (i, r['name'], got and got[0], got and len(got[2]),
@@ -2106,6 +2259,8 @@ def replay(ctx, obj):
     bad = H.check_property(case, 'replay')
     for fid, what, _ in bad:
         print(' PROPERTY FAILS:', fid, '-', what)
+    if case['failure']:
+        return 1
     q, real = H.model_query(case)
     if len(q['sched']) < 5000:
         ans = ctx.model([q])[0]
